@@ -952,6 +952,10 @@ class Gen(object):
         if k is None or len(self.cands()) < 2:
             return self.g_new()
         o = self.w.slots[i].obj
+        if self.rng.random() < 0.06:
+            # the object as its own source: x(x), x.set_val(x)
+            return {'op': 'set_from', 'slot': self.cands().index(i), 'src': self.cands().index(i), 'self': True,
+                    'via': self.rng.choice(['call', 'set_val'])}
         ks, isrc = self.pick(lambda q: self.is_real(q) and q is not o)
         if ks is None:
             return self.g_new()
@@ -964,11 +968,15 @@ class Gen(object):
         if k is None:
             return self.g_new(arr=True)
         o = self.w.slots[i].obj
+        sh = tuple(np.asarray(o.val).shape)
+        if r.random() < 0.08 and sh[0] >= 2:
+            # within one object: x[i] = x[j] (elements of a 1-D array, rows of a 2-D one)
+            a, b = r.sample(range(sh[0]), 2)
+            return {'op': 'setitem_from', 'slot': k, 'src': k, 'self': True, 'sindex': a, 'index': b}
         ks, isrc = self.pick(lambda q: self.is_real(q) and q is not o)
         if ks is None:
             return self.g_new()
         so = self.w.slots[isrc].obj
-        sh = tuple(np.asarray(o.val).shape)
         ssh = tuple(np.asarray(so.val).shape)
         op = {'op': 'setitem_from', 'slot': k, 'src': self.cands().index(isrc)}
         if 'F2' in self.p.faults and r.random() < max(self.p.fault_rate, 0.1):
@@ -1313,6 +1321,8 @@ class Gen(object):
         if k is None or len(self.cands()) < 2:
             return self.g_new()
         o = self.w.slots[i].obj
+        if self.rng.random() < 0.06:
+            return {'op': 'equal', 'slot': self.cands().index(i), 'src': {'slot': self.cands().index(i), 'self': True}}
         ks, isrc = self.pick(lambda q: self.is_real(q) and q is not o)
         if ks is None:
             return self.g_new()
